@@ -56,7 +56,7 @@ def run(tier):
             k = json.dumps(b["words"])
             if k not in seen:
                 seen.add(k)
-                acts.append({"n": "Eval", "mode": "groups", "pre": [], "argv": b["words"], "cmd": [], "tag": {"k": "model", "valid": b["valid"]}})
+                acts.append({"n": "Eval", "mode": "groups", "presrc": "none", "filetext": [], "envstr": [], "argv": b["words"], "cmd": [], "tag": {"k": "model", "valid": b["valid"]}})
         for assign in parts:
             sel = acts if tier == "thorough" or len(acts) <= 1500 else rnd.sample(acts, 1500)
             blocks.append((with_groups(cfgs[ci - 1], assign), sel))
